@@ -70,8 +70,8 @@ def menu():
     ]
 
 
-QUICK_SECOND = ('X', 'H', 'CZ', 'CX1', 'SWAP', 'CCX', 'Xshift')
-QUICK_FIRST2 = ('X', 'H', 'CX', 'SWAP', 'CCZ', 'FSim')
+QUICK_SECOND = ('X', 'H', 'CZ', 'CX1', 'SWAP')
+QUICK_FIRST2 = ('H', 'CX', 'SWAP', 'FSim')
 
 
 def build_circuit(cx, n, n_ops, first=None, second_menu=None):
@@ -139,9 +139,11 @@ def obligations(tier):
     if tier == 'quick':
         CONFIGS = [(0, True, 0), (0, False, 1), (0, True, 1), (1, True, 2), (1, False, 0), (2, True, 0), (2, False, 0), (3, True, 0), (4, True, 0), (4, False, 0), (5, True, 0)]
         BASIS = [5]
+        CONFIGS2 = [(0, True, 1), (0, False, 0), (1, True, 2), (1, False, 0), (2, True, 0), (4, True, 0)]
     else:
         CONFIGS = [(0, sp, k) for sp in (True, False) for k in (0, 1, 2)] + [(1, sp, k) for sp in (True, False) for k in (0, 2)] + [(2, sp, 0) for sp in (True, False)] + [(3, True, 0), (5, True, 0)] + [(4, sp, 0) for sp in (True, False)]
         BASIS = list(range(8))
+        CONFIGS2 = CONFIGS
 
     def wrong_steps(steps):
         Mx, pos = steps[-1]
@@ -150,7 +152,7 @@ def obligations(tier):
         return steps[:-1] + [(perturb(Mx), pos)]
 
     # ---- Circuit.unitary / final_state_vector with qubit order ------------------------------------
-    for first in firsts:
+    for first in (firsts if tier != 'quick' else [f for f in firsts if f not in ('rx', 'Y', 'ZZ', 'CCZ', 'X1', 'CX1', 'SWAP1', 'Xshift')]):
         def body(cx, wrong=False, first=first):
             qs, ops, steps = build_circuit(cx, N, NOPS, first, SECOND)
             circuit = cirq.Circuit(ops)
@@ -173,7 +175,8 @@ def obligations(tier):
             qs, ops, steps = build_circuit(cx, N, nops, first, SECOND)
             circuit = cirq.Circuit(ops)
             st = wrong_steps(steps) if wrong else steps
-            cfg = CONFIGS[cx.choose('config', len(CONFIGS))]
+            cfgs = CONFIGS if (nops == 1 or tier != 'quick') else CONFIGS2
+            cfg = cfgs[cx.choose('config', len(cfgs))]
             mode, split, init_kind = cfg
             if init_kind == 0:
                 b = BASIS[cx.choose('basis', len(BASIS))]
@@ -284,7 +287,7 @@ LEVEL = (
 def main(tier, seed=0, replay=None, only=None, procs=None):
     bounds = {
         'wires': 3,
-        'ops_per_circuit': '2: Circuit.unitary on every ordered pair over the 19-gate menu with every placement; simulators: first op over the 19-gate menu, second op over a 7-gate sub-menu (quick) / the full menu (thorough), every placement',
+        'ops_per_circuit': '2: Circuit.unitary on every ordered pair over the 19-gate menu with every placement; simulators: first op over the 19-gate menu, second op over a 5-gate sub-menu and 4 first gates with 6 configurations (quick; plus all 19 single-op circuits with 11 configurations) / the full menu (thorough), every placement',
         'simulator_configs': '11 (quick) / 18 x 8 basis states (thorough) combinations of entry point, split_untangled_states, initial-state kind',
         'parameter_box': [-BOX, BOX],
         'amplitude_box': [-1, 1],
